@@ -1123,5 +1123,67 @@ pub fn run(a: &ShardArgs) -> Result<(), String> {
         out::distinct(&format!("C/{}/rx{}/{}/{}", if outstation { "o" } else { "m" }, rx, c1name, continue_old));
         let _ = it;
     }
+    // ------------------------------------------------------------ part D
+    // the receive buffer a real endpoint is configured with is the one its transport reader uses (whatever the transmit
+    // buffers are): fragments up to that size arrive and are answered, the next larger one is not
+    if a.extra.iter().all(|x| x != "--direct-only") {
+        crate::verif::sim::run_scenario(part_d(a));
+    }
     Ok(())
+}
+
+async fn part_d(a: &ShardArgs) {
+    use crate::outstation::database::Add;
+    use crate::verif::refcodec::app as ra;
+    use crate::verif::sim::outstation::*;
+    use crate::verif::sim::*;
+    let mut r = a.rng(&format!("c08d/{}", a.shard));
+    for _ in 0..6 {
+        let mut cfg = OutCfg::default();
+        cfg.rx = *r.pick(&[249usize, 300, 1000, 2048]);
+        cfg.sol_tx = *r.pick(&[249usize, 2048]);
+        cfg.unsol_tx = *r.pick(&[249usize, 2048]);
+        cfg.discard = r.bool();
+        let mut sim = OutSim::start_with(cfg.clone(), |db| {
+            db.add(0, None, crate::outstation::database::AnalogInputConfig::default());
+        })
+        .await;
+        let _ = sim.collect();
+        let mut seq = r.below(16) as u8;
+        // a READ of 2 + 5k octets: k one-point range headers
+        let kmax = (cfg.rx - 2) / 5;
+        for k in [kmax.saturating_sub(1).max(1), kmax, kmax + 1, kmax + 3] {
+            seq = (seq + 1) & 15;
+            let mut b = ra::B::request(ra::F_READ, seq);
+            for _ in 0..k {
+                b = b.range8(30, 0, 0, 0, &[]);
+            }
+            let rq = b.done();
+            let fits = rq.len() <= cfg.rx;
+            let rx = sim.request(&rq).await;
+            out::eval(1);
+            let answered = rx
+                .iter()
+                .filter_map(|x| x.fragment())
+                .any(|f| f.len() >= 4 && f[1] == ra::F_RESPONSE && f[0] & 15 == seq);
+            if fits != answered {
+                viol(
+                    a,
+                    if fits { "completeness" } else { "soundness" },
+                    &format!("endpoint-rx|{}", if fits { "fits" } else { "too-long" }),
+                    J::s(format!(
+                        "outstation with receive buffer {} (transmit buffers {} / {}): a fragment of {} octets was {}",
+                        cfg.rx,
+                        cfg.sol_tx,
+                        cfg.unsol_tx,
+                        rq.len(),
+                        if answered { "answered" } else { "not answered" }
+                    )),
+                );
+            } else {
+                out::count(if fits { "D_fragment_up_to_rx_answered" } else { "D_fragment_beyond_rx_dropped" }, 1);
+            }
+            out::distinct(&format!("D/rx{}/tx{}/{}", cfg.rx, cfg.sol_tx, if fits { "fits" } else { "too-long" }));
+        }
+    }
 }
